@@ -23,7 +23,17 @@ func init() {
 		Assume:   tcpAssume}
 }
 
+func init() {
+	props["C11"] = PropDef{Level: "exploration", QuickS: 50, ThoroughS: 600,
+		Units: []Unit{{Name: "reasm-c11", Pkg: "./props/reasm", Sim: "c11r", Share: 0.5}, {Name: "tcpasm-c11", Pkg: "./props/tcpasm", Sim: "c11t", Share: 0.5}},
+		Rule: "one evaluation = one simulated run of 1-8 connections (open, transfer, FIN, RST, stall, re-open of the same 4-tuple), network faults, age-based flushes with and without closing, backward clock jumps, page limits, then flush-all; lifecycle, leak, page-limit and age-flush invariants audited after every event; non-trivial = at least one fault fired; distinct = distinct event-log fingerprints among non-trivial runs",
+		RealStub: "real: reassembly and tcpassembly Assembler, StreamPool, page caches; stub: senders, network, clock, streams (completion answers are a per-run policy)",
+		Assume: tcpAssume}
+}
+
 var probeNames = map[string][]string{
 	"c09": {"stream_crosses_wrap", "wrap_inside_delivery", "flush_forced_skip", "limit_forced_skip", "syn_overtaken_by_data", "gap_announced", "delivery_without_start", "kept_bytes_presented", "multi_page_with_saved"},
+	"c11r": {"flush_forced_skip", "limit_forced_skip"},
+	"c11t": {"flush_forced_skip", "limit_forced_skip"},
 	"c10": {"stream_crosses_wrap", "wrap_inside_delivery", "flush_forced_skip", "limit_forced_skip", "syn_overtaken_by_data", "gap_announced", "delivery_without_start"},
 }
